@@ -494,3 +494,79 @@ M("C10", "await-between-select-and-delete", "breaking",
   "L4:server.middleware:RateLimiter._cleanup_loop:await-between-select-and-delete")
 M("C10", "benign-conditional-clamp", "benign",
   [(MW, "TokenBucket.consume", "self.tokens = min(self.capacity, self.tokens + (elapsed * self.refill_rate))", "self.tokens = self.tokens + (elapsed * self.refill_rate)\n        if self.tokens > self.capacity:\n            self.tokens = self.capacity")])
+
+# ---------------------------------------------------------------- C06
+TP = "server/tls_protocol.py"
+M("C06", "revert-fix-send", "breaking",
+  [(TP, "TLSTransportWrapper.write", "self.tls_protocol.tls_conn.sendall(data)", "self.tls_protocol.tls_conn.send(data)")],
+  "R1:server.tls_protocol:TLSTransportWrapper.write:dropped-short-write")
+M("C06", "send-result-read-not-looped", "breaking",
+  [(TP, "TLSTransportWrapper.write", "self.tls_protocol.tls_conn.sendall(data)", "sent = self.tls_protocol.tls_conn.send(data)")],
+  "R1:server.tls_protocol:TLSTransportWrapper.write:short-write-not-looped")
+M("C06", "no-flush-after-write", "breaking",
+  [(TP, "TLSTransportWrapper.write", "            self.tls_protocol._flush_outgoing()\n", "")],
+  "R2:server.tls_protocol:TLSTransportWrapper.write:encrypt-without-flush")
+M("C06", "close-without-flush", "breaking",
+  [(TP, "TLSTransportWrapper.close", "                self.tls_protocol.tls_conn.shutdown()\n                self.tls_protocol._flush_outgoing()\n", "                self.tls_protocol.tls_conn.shutdown()\n")],
+  "R2:server.tls_protocol:TLSTransportWrapper.close:close-without-drain")
+M("C06", "flush-single-read", "breaking",
+  [(TP, "TLSServerProtocol._flush_outgoing", "            while True:\n                pending = self.tls_conn.bio_read(8192)\n                if not pending:\n                    break\n                self.transport.write(pending)\n", "            pending = self.tls_conn.bio_read(8192)\n            if pending:\n                self.transport.write(pending)\n")],
+  "R2:server.tls_protocol:TLSServerProtocol._flush_outgoing:flush-incomplete")
+M("C06", "body-sliced", "breaking",
+  [(P, SR, "                body = response.body.encode(\"utf-8\")\n", "                body = response.body[:65536].encode(\"utf-8\")\n")],
+  "R3:server.protocol:GeminiServerProtocol._send_response:body-altered")
+M("C06", "body-latin1", "breaking",
+  [(P, SR, "                body = response.body.encode(\"utf-8\")\n", "                body = response.body.encode(\"latin-1\", errors=\"replace\")\n")],
+  "R3:server.protocol:GeminiServerProtocol._send_response:body-")
+M("C06", "rewrap-drops-body", "breaking",
+  [(P, "GeminiServerProtocol._handle_async_handler_result", "                    body=response.body,\n", "                    body=None,\n")],
+  "R3:server.protocol:GeminiServerProtocol._handle_async_handler_result:rewrap-alters")
+M("C06", "benign-sendall-var", "benign",
+  [(TP, "TLSTransportWrapper.write", "            self.tls_protocol.tls_conn.sendall(data)\n", "            conn = self.tls_protocol.tls_conn\n            conn.sendall(data)\n")])
+
+# ---------------------------------------------------------------- C14
+UH = "FileUploadHandler.handle_upload"
+M("C14", "revert-fix-write-bytes", "breaking",
+  [(H, UH, "            tmp_path = target.parent / f\".upload-{uuid.uuid4().hex}.tmp\"\n            try:\n                with open(tmp_path, \"xb\") as tmp_file:\n                    tmp_file.write(request.content)\n                os.replace(tmp_path, target)\n            except BaseException:\n                tmp_path.unlink(missing_ok=True)\n                raise\n", "            target.write_bytes(request.content)\n")],
+  "U2:server.handler:FileUploadHandler.handle_upload:in-place-write")
+M("C14", "temp-file-not-cleaned", "breaking",
+  [(H, UH, "                tmp_path.unlink(missing_ok=True)\n                raise\n", "                raise\n")],
+  "U2:server.handler:FileUploadHandler.handle_upload:temp-file-leak")
+M("C14", "token-check-after-write", "breaking",
+  [(H, UH, "        if self.auth_tokens:\n            if not request.token or request.token not in self.auth_tokens:\n                return GeminiResponse(\n                    status=StatusCode.CLIENT_CERT_REQUIRED.value,\n                    meta=\"Valid authentication token required\",\n                )\n\n", ""),
+   (H, UH, "            return GeminiResponse(\n                status=StatusCode.SUCCESS.value,\n                meta=MIME_TYPE_GEMTEXT,\n                body=f\"# Upload Successful",
+    "            if self.auth_tokens:\n                if not request.token or request.token not in self.auth_tokens:\n                    return GeminiResponse(\n                        status=StatusCode.CLIENT_CERT_REQUIRED.value,\n                        meta=\"Valid authentication token required\",\n                    )\n            return GeminiResponse(\n                status=StatusCode.SUCCESS.value,\n                meta=MIME_TYPE_GEMTEXT,\n                body=f\"# Upload Successful")],
+  "U1:server.handler:FileUploadHandler.handle_upload:unguarded-mutation:wrong token")
+M("C14", "token-check-only-when-present", "breaking",
+  [(H, UH, "if not request.token or request.token not in self.auth_tokens:", "if request.token and request.token not in self.auth_tokens:")],
+  "U1:server.handler:FileUploadHandler.handle_upload:unguarded-mutation:missing token")
+M("C14", "size-limit-off", "breaking",
+  [(H, UH, "if request.size > self.max_size:", "if request.size > self.max_size * 1024:")],
+  "U1:server.handler:FileUploadHandler.handle_upload:unguarded-mutation:size above limit")
+M("C14", "mime-check-inverted", "breaking",
+  [(H, UH, "if self.allowed_types and request.mime_type not in self.allowed_types:", "if self.allowed_types and request.mime_type in self.allowed_types:")],
+  "U1:server.handler:FileUploadHandler.handle_upload:")
+M("C14", "delete-before-auth", "breaking",
+  [(H, UH, "        # 4. Handle zero-byte delete request\n        if request.is_delete():\n            return await self._handle_delete(request.path)\n\n", ""),
+   (H, UH, "        # 1. Validate authentication (if tokens configured)\n", "        if request.is_delete():\n            return await self._handle_delete(request.path)\n\n        # 1. Validate authentication (if tokens configured)\n")],
+  "U1:server.handler:FileUploadHandler.handle_upload:unguarded-mutation:wrong token on delete")
+M("C14", "delete-ignores-enable-flag", "breaking",
+  [(H, "FileUploadHandler._handle_delete", "        if not self.enable_delete:\n            return GeminiResponse(\n                status=StatusCode.PERMANENT_FAILURE.value,\n                meta=\"Delete operations are disabled\",\n            )\n\n", "")],
+  "U1:server.handler:FileUploadHandler.handle_upload:unguarded-mutation:delete while disabled")
+M("C14", "delete-without-containment", "breaking",
+  [(H, "FileUploadHandler._handle_delete", "        if not self._is_safe_path(target):\n            return GeminiResponse(\n                status=StatusCode.BAD_REQUEST.value,\n                meta=\"Invalid path\",\n            )\n\n", "")],
+  "U1:server.handler:FileUploadHandler._handle_delete:unchecked:target")
+M("C14", "upload-target-unresolved", "breaking",
+  [(H, UH, "target = (self.upload_dir / request.path.lstrip(\"/\")).resolve()", "target = self.upload_dir / request.path.lstrip(\"/\")")],
+  "U1:server.handler:FileUploadHandler.handle_upload:unresolved:target")
+M("C14", "content-truncated-by-one", "breaking",
+  [(H, UH, "tmp_file.write(request.content)", "tmp_file.write(request.content[:-1])")],
+  "U3:server.handler:FileUploadHandler.handle_upload:content-altered")
+M("C14", "max-size-from-wrong-setting", "breaking",
+  [(CFGF, "ServerConfig.get_upload_handler", "max_size=self.titan_max_upload_size,", "max_size=self.max_file_size,")],
+  "U5:server.config:ServerConfig.get_upload_handler:field-crossed:max_size")
+M("C14", "tokens-not-wired", "breaking",
+  [(CFGF, "ServerConfig.get_upload_handler", "            auth_tokens=auth_tokens,\n", "")],
+  "U5:server.config:ServerConfig.get_upload_handler:field-crossed:auth_tokens")
+M("C14", "benign-path-replace", "benign",
+  [(H, UH, "                os.replace(tmp_path, target)\n", "                tmp_path.replace(target)\n")])
